@@ -10,7 +10,7 @@ def components():
 
 
 def oracles_():
-    return [comps_difftree.KeepStream(), comps_uord.UordReverseOracle(), oracles.DiffRev(), oracles.DiffUordRev(), comps_difftree.DiffTreeLaws("C13"), comps_difftree.FixedRegress("C13"), comps_difftree.FixedRegress("C13", "t_c14x"), comps_difftree.DiffKinds("C13"), comps_difftree.DiffMergeOpts()]
+    return [comps_difftree.KeepStream(), comps_uord.UordReverseOracle(), oracles.DiffRev(), oracles.DiffUordRev(), comps_difftree.DiffTreeLaws("C13"), comps_difftree.FixedRegress("C13"), comps_difftree.FixedRegress("C13", "t_c14x"), comps_difftree.DiffKinds("C13"), comps_difftree.DiffMergeOpts(), comps_difftree.UordMoveChange()]
 
 
 MANIFEST = {
@@ -30,7 +30,7 @@ MANIFEST = {
             "when the two diffs touch different top-level instances). Tie: the extracted models of "
             "lyd_diff_reverse_all and lyd_diff_merge_all (whole merge table, redundancy removal, both merge options) must print the same "
             "reversed / merged diff trees and the same patched trees as libyang on generated triples built to hit every cell (T2 "
-            "dtree-C13); the laws are also judged on the implementation by dump equality (difftree-laws-C13). Node kinds outside the model (oracle difftree-kinds-C13, driver t_c14x, dumps with anydata value type and content, metadata, opaque nodes): apply(reverse(diff(A,B)),B) = A and apply(merge(diff(A,B),diff(B,C)),A) = C on trees with anydata / anyxml values of every representation, metadata and opaque nodes; the known deviations (a reversed anydata value comes back as a string, metadata / opaque nodes are not carried) are computed exactly per case. Merge options (oracle difftree-mergeopts-C13): apply(merge(diff(A,B),diff(B,C)),A) = C by dump equality for both values of LYD_DIFF_MERGE_DEFAULTS on diffs made with LYD_DIFF_DEFAULTS, and for diffs made without it on triples without default nodes; leaves with own and with typedef defaults (no LYS_SET_DFLT) in the correspondence, law and kinds generators.",
+            "dtree-C13); the laws are also judged on the implementation by dump equality (difftree-laws-C13). Node kinds outside the model (oracle difftree-kinds-C13, driver t_c14x, dumps with anydata value type and content, metadata, opaque nodes): apply(reverse(diff(A,B)),B) = A and apply(merge(diff(A,B),diff(B,C)),A) = C on trees with anydata / anyxml values of every representation, metadata and opaque nodes; the known deviations (a reversed anydata value comes back as a string, metadata / opaque nodes are not carried) are computed exactly per case. Merge options (oracle difftree-mergeopts-C13): apply(merge(diff(A,B),diff(B,C)),A) = C by dump equality for both values of LYD_DIFF_MERGE_DEFAULTS on diffs made with LYD_DIFF_DEFAULTS, and for diffs made without it on triples without default nodes; leaves with own and with typedef defaults (no LYS_SET_DFLT) in the correspondence, law and kinds generators. User-ordered lists (oracle difftree-uord-movechange-C13): reversal of diffs in which one instance of a user-ordered keyed list (top level, in containers, in list entries) is moved or created AND changed inside (nested leaves, containers, leaf-lists, nested list entries, default leaves), both diff option settings, with controls; failures are attributed to uord-reverse only when the diff deletes a user-ordered instance or moves two instances of one list (also in diff-uord-reverse).",
     "note": "Modelled C: lyd_diff_reverse_all restricted to one user-ordered leaf-list. Tree level (slice difftree): lyd_diff_reverse_all (incl. lyd_diff_reverse_value/_default, "
             "the ignored error of lyd_diff_reverse_remove_op_r), lyd_diff_merge_r with lyd_diff_merge_none/_replace/_create/_delete, "
             "lyd_diff_is_redundant and the default-flag walks in the diff tree. The composition law (merge_apply) for arbitrary C has no general proof "
